@@ -317,6 +317,7 @@ pub fn run(opts: &Opts) -> Report {
         let mut vals = dw::scalars();
         vals.extend(dw::containers());
         // (a dyn value supports equality, truthiness and member access only; ordering a dyn value is an error)
+        dw::complement_with_one_sided(&mut rep);
         dw::transparency(&mut rep, "equality", &["a == b", "a != b", "b == a", "[a] == [b]", "(a == b) == (b == a)", "(a != b) == !(a == b)"], &vals, &vals);
     }
     rep.compare_with_model(&opts.driver, &pending);
